@@ -26,7 +26,7 @@ def main():
     if not (os.path.isfile(patch) and os.path.isfile(demo)):
         print('REJECT %s: missing patch/demo' % tid)
         return 1
-    run('git checkout -- .', wt)
+    run('git checkout -- . && git clean -fdq clastic', wt)
     rc, out = run('%s -W ignore %s' % (PY, os.path.basename(demo)), wt)
     if rc != 0:
         print('REJECT %s: demo fails on clean code' % tid)
@@ -45,7 +45,7 @@ def main():
             print('REJECT %s: suite: %s' % (tid, out[-200:]))
             return 1
     finally:
-        run('git checkout -- .', wt)
+        run('git checkout -- . && git clean -fdq clastic', wt)
     d = os.path.join('/verif/twins', tid)
     os.makedirs(d, exist_ok=True)
     shutil.copyfile(patch, os.path.join(d, 'patch.diff'))
